@@ -851,7 +851,9 @@ func (e *Eng) execInstr(fr *Frame, b *ssa.BasicBlock, ins ssa.Instruction, st *S
 		cp := e.valOf(fr, st, x.Cap)
 		et := types.Unalias(x.Type()).Underlying().(*types.Slice).Elem()
 		e.oblige("make", "len:"+descr(x.Len, 0), e.safety(fr), x.Pos(), g, and(sx("<=", "0", ln.T), sx("<=", ln.T, cp.T)))
+		fr.siteIns = x
 		e.siteAsserts(fr, "make", descr(x.Len, 0), x.Pos(), st, g, map[string]*Val{"n": ln, "c": cp})
+		fr.siteIns = nil
 		ref := e.alloc(st, "makeslice")
 		l := &Loc{Kind: LArr, Base: ref, ET: et}
 		e.store(st, l, e.zero(types.NewArray(et, 0)), "zero slice")
@@ -923,7 +925,9 @@ func (e *Eng) execInstr(fr *Frame, b *ssa.BasicBlock, ins ssa.Instruction, st *S
 		}
 	case *ssa.Go:
 		e.note("goroutine spawn in %s: %s (body verified separately if under contract; spawn contributes nothing to the caller)", fnKey(fr.fn), calleeName(x.Common()))
+		fr.siteIns = x
 		e.siteAsserts(fr, "go", calleeName(x.Common()), x.Pos(), st, g, nil)
+		fr.siteIns = nil
 	case *ssa.Defer:
 		d := deferred{call: x, guard: g, block: b}
 		c := x.Common()
